@@ -363,6 +363,17 @@ def run(ctx):
             cli_jobs[-1]["link_to"] = "batch_2024_07.py"
         cli_jobs.append(dict(op="solver_cli", path="inputs/%s.py" % st, text=repr(games), argv=["--file", "inputs/%s.py" % st], limit=60))
 
+    # the command line on a file denoting no game at all, with a report of an earlier run present: -s still writes this run's
+    # (empty) report
+    cli_empty = dict(op="solver_cli", path="inputs/empty_cli.py", text="{}", argv=["-f", "inputs/empty_cli.py", "-s"],
+                     decoys={"outputs/empty_cli.txt": "stale report of an earlier run\n" * 50}, limit=60)
+    r_empty = impl.run_cases([cli_empty], limit=60, tag="c16ce")[0]
+    ctx.evaluations += 1
+    ctx.count("cli: empty batch over a stale report")
+    if r_empty.get("rc") != 0 or r_empty.get("outputs") != {"empty_cli.txt": ""}:
+        ctx.violation("conditionalrewards.py -f inputs/empty_cli.py -s on a file denoting no game, an older report present: exit %s, "
+                      "outputs %s (expected an empty outputs/empty_cli.txt)" % (r_empty.get("rc"), {k: v[:40] for k, v in (r_empty.get("outputs") or {}).items()}),
+                      dict(text="{}", argv=cli_empty["argv"], stale_report=True))
     res = impl.run_cases(jobs + rjobs + [k2] + cli_jobs, limit=60, tag="c16")
     rrep = res[:len(jobs)]
     rread = res[len(jobs):len(jobs) + len(rjobs)]
